@@ -87,8 +87,19 @@ def run(m, chk):
         "relative to the minimum); both components of the Newton iterate are clamped on both sides after every update; loops are counter-bounded; the duplicate filter is passed; curves are not modified. "
         "Completeness (every crossing is found) and accuracy are not decided."
     )
-    chk.decides = ["PRECOND(non-empty)", "ABS-RESIDUAL", "CLAMP", "TERM", "must-pass-through(filter_pairs)", "PURE"]
+    chk.decides = ["PRECOND(non-empty)", "ABS-RESIDUAL", "CLAMP", "TERM", "must-pass-through(filter_pairs)", "PURE", "DEP-MAY (both curves, weights included)"]
     chk.not_decided = ["every crossing is found", "accuracy of the parameters"]
+    # 0. the result depends on every field of both curves (weights included: a rational curve is not its control polygon)
+    CC = "advanced.Intersection.curve_and_curve"
+    cctx = r.root(CC)
+    for nid, v in sorted(cctx.ret_sites.items()):
+        a = cctx.cfg.nodes[nid].ast
+        if a.value is None or (isinstance(a.value, ast.Call) and seg(a.value.func) == "tuple" and not a.value.args):
+            continue  # the empty answer
+        have = r.deep_dep(cctx, v, heap=cctx.ret_states[nid].heap)
+        needs = [f"{p}.{f}" for p in cctx.fi.params[:2] for f in ("ctrlpoints", "knotvector", "weights")]
+        miss = [w for w in r.srcs(cctx.fi, needs) if not R.dep_has(have, w)]
+        chk.ob("DEP-MAY", f"{CC}: `{seg(a, 40)}` depends on points, knot vector and weights of both curves", not miss, loc=r.loc(cctx, a), detail="" if not miss else f"{CC}: the pairs returned at {r.loc(cctx, a)} do not depend on {r.fmt_deps(cctx.fi, miss)}", func=CC, construct=f"result ignores {r.fmt_deps(cctx.fi, miss)}")
     # 1. callee precondition
     need = needs_nonempty(r, PMD)
     chk.floor("PRECOND", "parameters of pairs_min_distance reduced with min()", len(need), 1)
